@@ -17,6 +17,9 @@ QUICK_KINDS = ("p", "b", "canary")
 ALL_KINDS = ("p", "b", "tp", "tb", "canary")
 COMPLETE_KINDS = ("p", "tp")
 UNDECIDED_CATEGORIES = ("unwind", "unsupported_construct")
+# CBMC's float NaN-production checks are not Rust failures (producing a NaN is defined behaviour);
+# they are reported in the evidence but never decide an obligation.
+IGNORED_CATEGORIES = ("NaN",)
 
 
 def log(*a):
@@ -85,7 +88,53 @@ def list_known():
     return fins
 
 
+# ---------------------------------------------------------------- transformed copy of the repository
+
+XREPO = os.path.join(BUILD, "xrepo")
+_xrepo_state = {}
+
+
+def prepare_xrepo():
+    """Fresh copy of /repo's working tree with the declared source transform applied.
+    Returns (path, applied_rules, problems)."""
+    if "done" in _xrepo_state:
+        return _xrepo_state["done"]
+    os.makedirs(XREPO, exist_ok=True)
+    subprocess.run(["rsync", "-a", "--delete", "--exclude", "/target", "--exclude", "/.git", REPO + "/", XREPO + "/"],
+                   check=True)
+    spec = json.load(open(os.path.join(VERIF, "transforms.json")))
+    problems, applied = [], []
+    by_file = {}
+    for r in spec["rules"]:
+        by_file.setdefault(r["file"], []).append(r)
+    for f, rules in by_file.items():
+        path = os.path.join(XREPO, f)
+        try:
+            src = open(path).read()
+        except OSError:
+            problems.append("transform: file missing: %s" % f)
+            continue
+        for r in rules:
+            n = src.count(r["find"])
+            if n != 1:
+                problems.append("transform anchor lost in %s (%d matches): %r" % (f, n, r["find"][:60]))
+                continue
+            src = src.replace(r["find"], r["replace"])
+            applied.append("%s: %r -> %r" % (f, r["find"].strip()[:70], r["replace"].strip()[:90]))
+        # keep mtime semantics simple: only write when changed
+        if src != open(path).read():
+            open(path, "w").write(src)
+    _xrepo_state["done"] = (XREPO, applied, problems)
+    return _xrepo_state["done"]
+
+
 # ---------------------------------------------------------------- kani
+
+def repo_root(part):
+    if part.get("transform"):
+        return prepare_xrepo()[0]
+    return REPO
+
 
 def run_kani(pid, part, tier, jobs):
     """Run all harnesses of one crate part. Returns dict with per-harness results."""
@@ -99,7 +148,15 @@ def run_kani(pid, part, tier, jobs):
             if k in kinds:
                 expected[n] = (k, f)
     out = {"expected": expected, "results": {}, "undecided": [], "crate": crate_dir, "wall_s": 0.0,
-           "cmd": "", "tools": {}}
+           "cmd": "", "tools": {}, "transform": []}
+    root = repo_root(part)
+    if part.get("transform"):
+        _, applied, problems = prepare_xrepo()
+        out["transform"] = applied
+        for pr in problems:
+            out["undecided"].append(pr)
+        if problems:
+            return out
     if not expected:
         out["undecided"].append("no harness found under %s/%s for %s" % (KANI_DIR, crate_key, prefixes))
         return out
@@ -109,7 +166,7 @@ def run_kani(pid, part, tier, jobs):
     lpath = os.path.join(BUILD, "out", tag + ".log")
     if os.path.exists(jpath):
         os.remove(jpath)
-    cmd = ["cargo", "kani", "--target-dir", os.path.join(BUILD, "kani")] + KANI_FLAGS
+    cmd = ["cargo", "kani", "--target-dir", os.path.join(BUILD, "kani-x" if part.get("transform") else "kani")] + KANI_FLAGS
     if part.get("c_ffi"):
         cmd += ["-Z", "c-ffi", "--c-lib", os.path.join(KANI_DIR, "clock.c")]
     for f in part.get("features", []):
@@ -124,9 +181,9 @@ def run_kani(pid, part, tier, jobs):
     cmd += filt + ["-j", str(jobs), "--output-format", "terse", "--export-json", jpath,
                    "--harness-timeout", "%ds" % per_harness_to]
     cmd += part.get("extra_args", [])
-    out["cmd"] = "cd %s && CARGO_NET_OFFLINE=true %s" % (os.path.join(REPO, crate_dir), " ".join(cmd))
+    out["cmd"] = "cd %s && CARGO_NET_OFFLINE=true %s" % (os.path.join(root, crate_dir), " ".join(cmd))
     total_to = part.get("timeout_thorough" if tier == "thorough" else "timeout", 1500 if tier == "quick" else 14400)
-    rc, text, dt = sh(cmd, cwd=os.path.join(REPO, crate_dir), timeout=total_to, logfile=lpath)
+    rc, text, dt = sh(cmd, cwd=os.path.join(root, crate_dir), timeout=total_to, logfile=lpath)
     out["wall_s"] = dt
     out["log"] = lpath
     if not os.path.exists(jpath):
@@ -174,7 +231,9 @@ def classify(name, kind, res):
     if res is None:
         return "undecided", "harness did not run / produced no result (time-out or lost anchor)"
     st = res["status"]
-    failed = res["failed"]
+    failed = [f for f in res["failed"] if f["category"] not in IGNORED_CATEGORIES]
+    if st == "Failure" and res["failed"] and not failed:
+        st = "Success"  # only ignored (NaN-production) checks were flagged
     uncovered = [c for c in res["covers"] if c.get("status") not in ("Satisfied",)]
     if kind == "canary":
         real = [f for f in failed if f["category"] not in UNDECIDED_CATEGORIES]
@@ -225,8 +284,8 @@ def native_playback(part, harness_file, test_text, test_name):
     for f in part.get("features", []):
         cmd += ["--features", f]
     cmd += ["--", test_name, "--exact"] if False else ["--", test_name]
-    rc, text, dt = sh(cmd, cwd=os.path.join(REPO, part["crate_dir"]),
-                      env={"VERIF_REPLAY_DIR": d, "CARGO_TARGET_DIR": os.path.join(BUILD, "playback")},
+    rc, text, dt = sh(cmd, cwd=os.path.join(repo_root(part), part["crate_dir"]),
+                      env={"VERIF_REPLAY_DIR": d, "CARGO_TARGET_DIR": os.path.join(BUILD, "playback-x" if part.get("transform") else "playback")},
                       timeout=1800)
     shutil.rmtree(d, ignore_errors=True)
     m = re.search(r"test result: (\w+)\. (\d+) passed; (\d+) failed", text)
@@ -246,14 +305,14 @@ def build_replay(pid, part, name, hid, hfile, res, reason):
     os.makedirs(REPLAYS, exist_ok=True)
     rpath = os.path.join(REPLAYS, "%s-%s.rs" % (pid, name))
     crate_key = part.get("crate_key", part["crate_dir"].replace("-", "_"))
-    cmd = ["cargo", "kani", "--target-dir", os.path.join(BUILD, "kani")] + KANI_FLAGS
+    cmd = ["cargo", "kani", "--target-dir", os.path.join(BUILD, "kani-x" if part.get("transform") else "kani")] + KANI_FLAGS
     if part.get("c_ffi"):
         cmd += ["-Z", "c-ffi", "--c-lib", os.path.join(KANI_DIR, "clock.c")]
     for f in part.get("features", []):
         cmd += ["--features", f]
     cmd += ["--harness", hid, "--exact", "-Z", "concrete-playback", "--concrete-playback=print",
             "--output-format", "terse", "--harness-timeout", "900s"]
-    rc, text, dt = sh(cmd, cwd=os.path.join(REPO, part["crate_dir"]), timeout=1800)
+    rc, text, dt = sh(cmd, cwd=os.path.join(repo_root(part), part["crate_dir"]), timeout=1800)
     tests = re.findall(r"```\n(.*?)```", text, re.S)
     tests = [t for t in tests if "concrete_playback_run" in t]
     hdr = ["// replay for property %s" % pid,
@@ -261,7 +320,8 @@ def build_replay(pid, part, name, hid, hfile, res, reason):
            "// failed checks: %s" % reason.replace("\n", " "),
            "// re-run natively against the real code:  /verif/check %s --replay %s" % (pid, rpath),
            "//meta " + json.dumps({"property": pid, "crate_dir": part["crate_dir"], "harness": hid,
-                                   "harness_file": hfile, "features": part.get("features", [])})]
+                                   "harness_file": hfile, "features": part.get("features", []),
+                                   "transform": bool(part.get("transform")), "c_ffi": bool(part.get("c_ffi"))})]
     if not tests:
         body = "\n".join(hdr) + "\n// the verifier produced no concrete input; verifier output follows\n/*\n" + \
                "\n".join(text.splitlines()[-80:]).replace("*/", "* /") + "\n*/\n"
@@ -358,6 +418,7 @@ def main(argv):
     tools = {}
     cmds = []
     samples = []
+    transforms = []
 
     for prob in check_anchors(spec):
         undecided.append(prob)
@@ -365,6 +426,7 @@ def main(argv):
     for part in spec.get("kani", []):
         r = run_kani(pid, part, tier, jobs)
         cmds.append(r["cmd"])
+        transforms.extend(x for x in r.get("transform", []) if x not in transforms)
         tools.update({k: v for k, v in r.get("tools", {}).items() if k in ("kani", "cbmc", "rustc")})
         for u in r["undecided"]:
             undecided.append("[kani %s] %s" % (part["crate_dir"], u))
@@ -372,12 +434,13 @@ def main(argv):
             res = r["results"].get(name)
             verdict, reason = classify(name, kind, res)
             ob = {"name": name, "backend": "kani/cbmc", "kind": kind, "verdict": verdict, "reason": reason,
-                  "n_checks": res["n_checks"] if res else 0, "solver_s": (res or {}).get("solver_s"),
+                  "n_checks": (res["n_checks"] - sum(1 for f in res["failed"] if f["category"] in IGNORED_CATEGORIES)) if res else 0,
+                  "ignored_nan_checks": sum(1 for f in res["failed"] if f["category"] in IGNORED_CATEGORIES) if res else 0, "solver_s": (res or {}).get("solver_s"),
                   "duration_s": (res or {}).get("duration_s"), "file": os.path.relpath(hfile, VERIF),
                   "harness_asserts": (res or {}).get("harness_asserts", 0)}
             obligations.append(ob)
             if verdict == "refuted":
-                fails = [f for f in res["failed"] if f["category"] not in UNDECIDED_CATEGORIES]
+                fails = [f for f in res["failed"] if f["category"] not in UNDECIDED_CATEGORIES + IGNORED_CATEGORIES]
                 kn = [k for k in known if k["harness"] == name]
                 if kn and all(any(k["check"] in (f["description"] or "") for k in kn) for f in fails):
                     ob["verdict"] = "known-finding"
@@ -465,6 +528,7 @@ def main(argv):
             "solver_time_s": round(sum((o["solver_s"] or 0) for o in obligations), 3),
             "backends": sorted(set(o["backend"] for o in obligations)),
             "undecided": undecided,
+            "source_transform_applied": transforms,
             "known_findings_hit": [n for n, _ in known_hits],
             "samples": samples,
             "exhaustive": False,
